@@ -357,8 +357,8 @@ func (r *render) lexp(l *LExp) string {
 	panic("bad lexp")
 }
 
-// dest renders an addressable expression in statement position: no outer parentheses (the interpreter loses
-// `(*p) = T{…}`: finding F04-8, kept out of the rendering)
+// dest renders an addressable expression in statement position: no outer parentheses (the interpreter lost
+// `(*p) = T{…}` until commit 3590fb8: finding F04-8, now fixed; the rendering stays without them)
 func (r *render) dest(l *LExp) string {
 	s := r.lexp(l)
 	if l.K == "d" {
